@@ -8,8 +8,8 @@ import PyaModel.Spec.WF
   *metaclass* defines `__iter__`.
 * `newtypeBase`: `A` contains a NewType; `NewTypeValue.can_assign` accepts the whole base class
   (`TypedValue(int)`), i.e. also instances of proper subclasses, which are not members of the NewType.
-* `annotatedNever`: `B` is `Annotated[Never, …]`; a union on the left rejects it although each of
-  its members accepts it.
+(`annotatedNever` — a union on the left rejecting `Annotated[Never]` — was repaired in /repo,
+commit 637d1c5; its witness stays in the C04 corpus.)
 -/
 namespace Pya
 
@@ -48,23 +48,8 @@ def protoUnsound (tbl : ClassTable) (a b : Ty) : Bool :=
   ((a.classes tbl).filter tbl.isProtocol).any fun c =>
     (b.classes tbl).any fun d => tbl.nominal false c d && !sub tbl d c
 
-mutual
-/-- no `Annotated[Never, …]` at the union/annotation top level of the term -/
-def annNeverFree : Ty → Bool
-  | .annotated (.union []) => false
-  | .annotated t => annNeverFree t
-  | .union bs => annNeverFreeL bs
-  | _ => true
-def annNeverFreeL : List Ty → Bool
-  | [] => true
-  | b :: bs => annNeverFree b && annNeverFreeL bs
-end
-
-def isAnnotatedNever (t : Ty) : Bool := !annNeverFree t
-
 def d04Classes (tbl : ClassTable) (a b : Ty) : List String :=
   (if protoUnsound tbl a b then ["metaclassAttr"] else []) ++
-  (if a.hasNewtype then ["newtypeBase"] else []) ++
-  (if isAnnotatedNever b then ["annotatedNever"] else [])
+  (if a.hasNewtype then ["newtypeBase"] else [])
 
 end Pya
